@@ -490,6 +490,9 @@ func (c16) Run(t TestingT, scn json.RawMessage, tape *Tape) *Outcome {
 			if !strings.HasPrefix(e.Task, "c1/") && e.Task != "c1" {
 				continue
 			}
+			if sc.Second && strings.HasSuffix(e.Task, "/exec.1") {
+				continue // the second request has a context of its own
+			}
 			if i > idxCancel && SiteClass(e.Site) == "resolver" && (e.Kind == "run" || e.Kind == "note") {
 				fk := faults["R@"+e.Info]
 				if fk == "" {
